@@ -30,7 +30,7 @@ package indexing
 // annotation lists as relations
 //@ macro func immHas(a PackageAnnotations, t string) bool = exists x int :: 0 <= x && x < len(a.ImmutableAnnotations) && a.ImmutableAnnotations[x].OnType == t
 // (p, t) is declared @immutable by the package of the pass or by a direct import with a fact
-//@ macro func immDeclared(pass *analysis.Pass, local *annotations.PackageAnnotations, p string, t string) bool = (pass.Pkg != nil && p == pass.Pkg.Path() && immHas(*local, t)) || (pass.Pkg != nil && pass.ImportPackageFact != nil && (exists j int :: 0 <= j && j < len(pass.Pkg.Imports()) && hasFact(pass, pass.Pkg.Imports()[j], createdTag(nil)) && pass.Pkg.Imports()[j].Path() == p && immHas(factAnn(pass, pass.Pkg.Imports()[j], createdTag(nil)), t)))
+//@ pure func immDeclared(pass *analysis.Pass, local *annotations.PackageAnnotations, p string, t string) bool = (pass.Pkg != nil && p == pass.Pkg.Path() && immHas(*local, t)) || (pass.Pkg != nil && pass.ImportPackageFact != nil && (exists j int :: 0 <= j && j < len(pass.Pkg.Imports()) && hasFact(pass, pass.Pkg.Imports()[j], createdTag(nil)) && pass.Pkg.Imports()[j].Path() == p && immHas(factAnn(pass, pass.Pkg.Imports()[j], createdTag(nil)), t)))
 
 //@ func BuildImmutableTypesIndex
 //@   props C06 C01 C09 C10
@@ -58,8 +58,8 @@ package indexing
 //@ macro func impAnn(pass *analysis.Pass, j int) PackageAnnotations = factAnn(pass, pass.Pkg.Imports()[j], createdTag(nil))
 
 // Relations "declared by this package or by a direct import with a fact" (what the indices must contain):
-//@ macro func ctorDeclared(pass *analysis.Pass, local *annotations.PackageAnnotations, p string, t string, x string) bool = (srcLocal(pass, p) && ctorHas(*local, t, x)) || (exists j int :: srcImport(pass, j, p) && ctorHas(impAnn(pass, j), t, x))
-//@ macro func mutDeclared(pass *analysis.Pass, local *annotations.PackageAnnotations, p string, t string, x string) bool = (srcLocal(pass, p) && mutHas(*local, t, x)) || (exists j int :: srcImport(pass, j, p) && mutHas(impAnn(pass, j), t, x))
+//@ pure func ctorDeclared(pass *analysis.Pass, local *annotations.PackageAnnotations, p string, t string, x string) bool = (srcLocal(pass, p) && ctorHas(*local, t, x)) || (exists j int :: srcImport(pass, j, p) && ctorHas(impAnn(pass, j), t, x))
+//@ pure func mutDeclared(pass *analysis.Pass, local *annotations.PackageAnnotations, p string, t string, x string) bool = (srcLocal(pass, p) && mutHas(*local, t, x)) || (exists j int :: srcImport(pass, j, p) && mutHas(impAnn(pass, j), t, x))
 //@ macro func toTypeDeclared(pass *analysis.Pass, local *annotations.PackageAnnotations, p string, t string) bool = (srcLocal(pass, p) && toTypeHas(*local, t)) || (exists j int :: srcImport(pass, j, p) && toTypeHas(impAnn(pass, j), t))
 //@ macro func toFuncDeclared(pass *analysis.Pass, local *annotations.PackageAnnotations, p string, t string, x string) bool = (srcLocal(pass, p) && toFuncHas(*local, t, x)) || (exists j int :: srcImport(pass, j, p) && toFuncHas(impAnn(pass, j), t, x))
 //@ macro func toMethDeclared(pass *analysis.Pass, local *annotations.PackageAnnotations, p string, t string, x string) bool = (srcLocal(pass, p) && toMethHas(*local, t, x)) || (exists j int :: srcImport(pass, j, p) && toMethHas(impAnn(pass, j), t, x))
